@@ -364,14 +364,18 @@ class Out:
         return type(e).__name__
 
 
-def real_space_run(case):
+def real_space_run(case, space=None, prequery=False):
+    """space: an existing Space object (with a history of set_transformer calls) whose transformers in force are
+    those of case["dims"]; None: a fresh object.  prequery: read the size/bounds properties before transforming."""
     from deephyper.skopt.space import Space
 
     specs, X = case["dims"], case["X"]
-    built = Out(lambda: Space([mk_dim(s) for s in specs]))
+    built = Out(lambda: Space([mk_dim(s) for s in specs]) if space is None else space)
     if built.exc is not None:
         return {"space": None, "built": built}
     sp = built.val
+    if prequery:
+        Out(lambda: (sp.transformed_n_dims, sp.transformed_bounds, [dm.transformed_size for dm in sp.dimensions]))
     t = Out(lambda: sp.transform([list(r) for r in X]))
     res = {"space": sp, "built": built, "t": t, "inv": None}
     if t.exc is None:
@@ -645,8 +649,16 @@ def run_space_case(ck, d, case, kind, nontrivial=True):
     ck.case({"kind": kind, **case}, nontrivial=nontrivial)
     if fails:
         report(ck, case, fails)
+    for f in l2_space(ck, d, case, run, fails):
+        report(ck, case, [f])
+
+
+def l2_space(ck, d, case, run, fails):
+    """correspondence of one (fresh or reused) Space object with the model built for case["dims"];
+    returns extra oracle failures found through Lean's memRow"""
+    extra = []
     if run["space"] is None:
-        return
+        return extra
     reqs = _space_requests(case, run)
     reps = d.ask_all([r for _, r in reqs])
     for (name, _), rep in zip(reqs, reps):
@@ -660,7 +672,8 @@ def run_space_case(ck, d, case, kind, nontrivial=True):
             if rep["mem"] != py:
                 ck.mismatch(case, {"what": "memRow (Lean) vs membership stated in Python", "lean": rep["mem"], "py": py})
             if not all(rep["mem"]) and not any(f[0] == "member" for f in fails):
-                report(ck, case, [("member", "Space.inverse_transform", None, {"lean_memRow": rep["mem"]})])
+                extra.append(("member", "Space.inverse_transform", None, {"lean_memRow": rep["mem"]}))
+    return extra
 
 
 def run_tpoint_case(ck, d, rng):
@@ -710,6 +723,278 @@ def run_tpoint_case(ck, d, rng):
     if rep["res"].get("rows") is not None and not all(
             m_ or any(s["k"] == "cat" and s["tr"] == "identity" for s in specs) for m_ in rep["mem"]):
         ck.mismatch(case, "model's inverse of an in-bounds transformed point is not a member (theorem C09_member_any out of sync)")
+
+
+# --------------------------------------------------------------------------- histories on ONE object
+
+MODELLED_TR = {"real": ["identity", "normalize"], "int": ["identity", "normalize"],
+               "cat": ["label", "onehot", "normalize", "identity"]}
+
+
+def allowed_transforms(s):
+    """transforms the dimension kind accepts and the property covers; "string" (not modelled) is only a
+    pass-through state of a history"""
+    if s["k"] != "cat":
+        return ["identity", "normalize"]
+    trs = ["label", "onehot", "normalize", "string"]
+    if isinstance(s["cats"][0], (int, float)) and not isinstance(s["cats"][0], bool):
+        trs.append("identity")
+    return trs
+
+
+def gen_history_case(rng):
+    """a space, member rows, and 1-4 set_transformer steps of every flavour (space-level string / per-dimension list,
+    by type, dimension-level, restore of the construction-time list as the samplers' save/restore does)"""
+    base = 2 if rng.random() < 0.2 else 10
+    nd = rng.choice([1, 1, 2, 3, 4, 5])
+    dims = [gen_dim(rng, base) for _ in range(nd)]
+    if rng.random() < 0.5:  # make sure numeric / multi-category dimensions are frequent
+        dims[rng.randrange(nd)] = {"k": "cat", "cats": rng.choice([[1, 2, 4, 8], [0.5, 0.25, 2.0], [3, 1], [7], [16, 32, 64, 128, 256]]),
+                                   "tr": rng.choice(["onehot", "label", "identity", "normalize"])}
+    m = rng.choice([1, 2, 3, 7])
+    X = [[gen_point(rng, s) for s in dims] for _ in range(m)]
+    steps = []
+    cur = [s["tr"] for s in dims]
+    kinds = sorted({s["k"] for s in dims})
+    for _ in range(rng.choice([1, 2, 2, 3, 4])):
+        op = rng.choice(["space-str", "space-list", "dim", "dim", "by-type", "restore-initial", "save-normalize-restore"])
+        if op == "space-str":
+            common_t = set.intersection(*[set(allowed_transforms(s)) for s in dims])
+            if not common_t:
+                continue
+            st = {"op": op, "t": rng.choice(sorted(common_t))}
+            cur = [st["t"]] * nd
+        elif op == "space-list":
+            st = {"op": op, "trs": [rng.choice(allowed_transforms(s)) for s in dims]}
+            cur = list(st["trs"])
+        elif op == "dim":
+            j = rng.randrange(nd)
+            st = {"op": op, "j": j, "t": rng.choice(allowed_transforms(dims[j]))}
+            cur[j] = st["t"]
+        elif op == "by-type":
+            k = rng.choice(kinds)
+            common_t = set.intersection(*[set(allowed_transforms(s)) for s in dims if s["k"] == k])
+            st = {"op": op, "cls": k, "t": rng.choice(sorted(common_t))}
+            cur = [st["t"] if s["k"] == k else c for s, c in zip(dims, cur)]
+        elif op == "restore-initial":
+            st = {"op": op}
+            cur = [s["tr"] for s in dims]
+        else:
+            st = {"op": op}  # saved = get_transformer(); set_transformer("normalize"); [queries]; set_transformer(saved)
+        st["query"] = rng.random() < 0.8
+        st["prequery"] = rng.random() < 0.5
+        steps.append(st)
+    if not steps:
+        steps = [{"op": "restore-initial", "query": True, "prequery": False}]
+    steps[-1]["query"] = True
+    return {"dims": dims, "X": X, "steps": steps}
+
+
+def apply_step(space, st, specs, initial):
+    """perform one step on the real object; returns the list of (sub-step label, transforms in force) states to check"""
+    from deephyper.skopt.space import Categorical, Integer, Real
+
+    cur = [s["tr"] for s in specs]
+    if st["op"] == "space-str":
+        space.set_transformer(st["t"])
+        return [("", [st["t"]] * len(specs))]
+    if st["op"] == "space-list":
+        space.set_transformer(list(st["trs"]))
+        return [("", list(st["trs"]))]
+    if st["op"] == "dim":
+        space.dimensions[st["j"]].set_transformer(st["t"])
+        cur[st["j"]] = st["t"]
+        return [("", cur)]
+    if st["op"] == "by-type":
+        cls = {"real": Real, "int": Integer, "cat": Categorical}[st["cls"]]
+        space.set_transformer_by_type(st["t"], cls)
+        return [("", [st["t"] if s["k"] == st["cls"] else c for s, c in zip(specs, cur)])]
+    if st["op"] == "restore-initial":
+        space.set_transformer(list(initial))
+        return [("", list(initial))]
+    saved = space.get_transformer()
+    space.set_transformer("normalize")
+    return [("normalized", ["normalize"] * len(specs)), ("restored", saved)]
+
+
+def dim_behaviour(dim, col):
+    """everything observable of one dimension object for one column of members (compared with a fresh instance)"""
+    def rec(f):
+        o = Out(f)
+        return o
+    size = Out(lambda: int(dim.transformed_size))
+    bounds = Out(lambda: np.asarray(dim.transformed_bounds, dtype=object).tolist())
+    t = Out(lambda: dim.transform(list(col)))
+    out = {"transform_": dim.transform_,
+           "size": size.kind if size.exc is not None else size.val,
+           "bounds": bounds.kind if bounds.exc is not None else repr(bounds.val),
+           "t": t.kind if t.exc is not None else repr(np.asarray(t.val).tolist())}
+    if t.exc is None:
+        inv = Out(lambda: dim.inverse_transform(t.val))
+        out["inv"] = inv.kind if inv.exc is not None else [tag(v) for v in list(inv.val)]
+        out["t_shape"] = list(np.asarray(t.val).reshape((len(col), -1)).shape) if len(col) else []
+    return out
+
+
+def run_history(ck, d, case, l2=True):
+    """executes the history on ONE Space object; after every switch the object must behave like a fresh object
+    built with the transformers in force.  Returns [(clause, step index, dim index or None, detail)]."""
+    from deephyper.skopt.space import Space
+
+    specs0, X = case["dims"], case["X"]
+    space = Space([mk_dim(s) for s in specs0])
+    initial = space.get_transformer()
+    specs = [dict(s) for s in specs0]
+    failures = []
+    for k, st in enumerate(case["steps"]):
+        o = Out(lambda: apply_step(space, st, specs, initial))
+        if o.exc is not None:
+            failures.append(("raises:" + o.kind, k, None, "set_transformer step %r raised %r" % (st, o.exc)))
+            return failures
+        for label, trs in o.val:
+            specs = [dict(s, tr=t) for s, t in zip(specs, trs)]
+            if st["op"] == "save-normalize-restore" and label == "restored":
+                space.set_transformer(trs)
+            if not st.get("query", True) and label != "normalized":
+                continue
+            where = {"step": k, "sub": label, "transforms": list(trs)}
+            # (A) per dimension: reuse-independent (also through the not modelled "string" state)
+            fresh_dims = [mk_dim_any(s) for s in specs]
+            for j, (dm, fd) in enumerate(zip(space.dimensions, fresh_dims)):
+                col = [r[j] for r in X]
+                a, b = dim_behaviour(dm, col), dim_behaviour(fd, col)
+                if a != b:
+                    diff = {key: [a.get(key), b.get(key)] for key in a if a.get(key) != b.get(key)}
+                    failures.append(("reuse-independent", k, j, {**where, "reused_vs_fresh": diff}))
+                elif "t_shape" in a and a["t_shape"][1:] != [a["size"]] and X:
+                    failures.append(("shape", k, j, {**where, "transform_columns": a["t_shape"], "transformed_size": a["size"]}))
+            if any(t == "string" for t in trs):
+                nd_r, nd_f = Out(lambda: space.transformed_n_dims), Out(lambda: Space(fresh_dims).transformed_n_dims)
+                if (nd_r.val, nd_r.kind if nd_r.exc else None) != (nd_f.val, nd_f.kind if nd_f.exc else None):
+                    failures.append(("reuse-independent", k, None, {**where, "transformed_n_dims": [nd_r.val, nd_f.val]}))
+                continue
+            # (B) the whole space: oracles as for a fresh object, model of the transformers in force, fresh instance
+            state = {"dims": specs, "X": X}
+            run = real_space_run(state, space=space, prequery=st.get("prequery", False))
+            fails = oracle(state, run)
+            if l2:
+                fails = fails + l2_space(ck, d, state, run, fails)
+            fresh = real_space_run(state)
+            ffails = oracle(state, fresh)
+            for f in fails:
+                if not any(g[0] == f[0] for g in ffails):
+                    failures.append((f[0], k, f[2], {**where, "api": f[1], "detail": f[3]}))
+            if fails and ffails:
+                report(ck, state, ffails)  # not history specific: the fresh object fails as well
+            same = True
+            for key in ("t", "inv", "tn"):
+                ra, rb = run.get(key), fresh.get(key)
+                if (ra is None) != (rb is None):
+                    same = False
+                elif ra is not None:
+                    if (ra.exc is None) != (rb.exc is None) or (ra.exc is not None and ra.kind != rb.kind):
+                        same = False
+                    elif ra.exc is None:
+                        va = np.asarray(ra.val, dtype=object).tolist() if key != "tn" else ra.val
+                        vb = np.asarray(rb.val, dtype=object).tolist() if key != "tn" else rb.val
+                        same = same and repr(va) == repr(vb)
+            if not same and not any(f[0] == "reuse-independent" and f[1] == k for f in failures):
+                failures.append(("reuse-independent", k, None, {**where, "what": "Space.transform / inverse_transform / transformed_bounds differ from a fresh Space"}))
+    return failures
+
+
+def mk_dim_any(s):
+    """like mk_dim, also for the pass-through "string" transform"""
+    from deephyper.skopt.space import Categorical
+
+    if s["k"] == "cat":
+        return Categorical(list(s["cats"]), transform=s["tr"])
+    return mk_dim(s)
+
+
+def dim_history(case, j):
+    """the history of dimension j alone, as dimension-level steps on a one-dimensional space"""
+    trs = []
+    cur = case["dims"][j]["tr"]
+    init = cur
+    for st in case["steps"]:
+        seq = []
+        if st["op"] == "space-str":
+            seq = [st["t"]]
+        elif st["op"] == "space-list":
+            seq = [st["trs"][j]]
+        elif st["op"] == "dim" and st["j"] == j:
+            seq = [st["t"]]
+        elif st["op"] == "by-type" and st["cls"] == case["dims"][j]["k"]:
+            seq = [st["t"]]
+        elif st["op"] == "restore-initial":
+            seq = [init]
+        elif st["op"] == "save-normalize-restore":
+            seq = ["normalize", cur]
+        for t in seq:
+            trs.append(t)
+            cur = t
+    return {"dims": [case["dims"][j]], "X": [[r[j]] for r in case["X"]],
+            "steps": [{"op": "dim", "j": 0, "t": t, "query": True, "prequery": False} for t in trs]}
+
+
+def report_history(ck, d, case, failures):
+    """shrink to one dimension, then to the shortest suffix of its switches; fingerprint = clause + last switch"""
+    done = set()
+    for clause, k, j, detail in failures:
+        small, sf = case, None
+        for jj in ([j] if j is not None else []) + [x for x in range(len(case["dims"])) if x != j]:
+            sub = dim_history(case, jj)
+            if not sub["steps"]:
+                continue
+            fs = run_history(ck, d, sub, l2=False)
+            if fs:
+                small, sf = sub, fs
+                if sf[0][1] + 1 < len(small["steps"]):  # nothing after the first failing switch is needed
+                    cut = dict(small, steps=small["steps"][: sf[0][1] + 1])
+                    fs2 = run_history(ck, d, cut, l2=False)
+                    if fs2:
+                        small, sf = cut, fs2
+                while len(small["steps"]) > 1:
+                    # drop the first switch (the construction-time transformer stays)
+                    shorter = dict(small, steps=small["steps"][1:])
+                    fs2 = run_history(ck, d, shorter, l2=False)
+                    if not fs2:
+                        break
+                    small, sf = shorter, fs2
+                if len(small["X"]) > 1:
+                    for i in range(len(small["X"])):
+                        one = dict(small, X=[small["X"][i]])
+                        fs2 = run_history(ck, d, one, l2=False)
+                        if fs2:
+                            small, sf = one, fs2
+                            break
+                break
+        if sf:
+            clause, k, _, detail = sf[0]
+            s0 = small["dims"][0]
+            seq = [s0["tr"]] + [st["t"] for st in small["steps"]]
+            frm, to = seq[k], seq[k + 1]
+            kind = f"cat[{cat_type(s0)}]" + (",n>=3" if len(s0["cats"]) >= 3 else f",n={len(s0['cats'])}") if s0["k"] == "cat" else s0["k"] + "/" + s0["prior"]
+            sig = f"{kind}:{frm}->{to}"
+        else:
+            sig = "dims=" + "+".join(sorted({dimsig(s) for s in case["dims"]}))
+        fp = f"C09|{clause}|set_transformer|{sig}"
+        if fp in done:
+            continue
+        done.add(fp)
+        ck.fail(fp, f"after set_transformer the object does not behave like a fresh one ({clause}; {sig})",
+                {"kind": "history", **small}, detail)
+
+
+def run_history_case(ck, d, case):
+    ck.case({"kind": "history", **case})
+    for st in case["steps"]:
+        ck.count("history-step:" + st["op"])
+    ck.count("history-steps=%d" % len(case["steps"]))
+    failures = run_history(ck, d, case)
+    if failures:
+        report_history(ck, d, case, failures)
 
 
 def dim_malformed_cases(rng):
@@ -838,7 +1123,9 @@ def run(ck):
     ck.rule = ("generated spaces of 1..8 mixed dimensions (real/int x uniform/log-uniform x identity/normalize, base 10 or 2; "
                "bounds: unit, powers of the base, negative, magnitudes 1e-300..1e300, awkward (3e-5,7e3); ints up to 2^40; "
                "categories str/int/float/bool x label/onehot/normalize/identity(numeric)), 1..50 member rows on / next to the "
-               "bounds and inside; arbitrary transformed points; malformed per-dimension calls; corpus first; "
+               "bounds and inside; arbitrary transformed points; malformed per-dimension calls; histories of 1-4 set_transformer "
+               "switches (space string / per-dimension list / by type / dimension-level / save-normalize-restore, incl. the "
+               "pass-through 'string' transform) on ONE Space object with queries after every switch; corpus first; "
                "non-trivial = at least one dimension that is not real/uniform/identity")
     ck.assumptions = [
         "np.log10 / ** are parameters of the model: observed values are passed as tables (L exact lookup, E nearest key with the distance checked)",
@@ -851,7 +1138,9 @@ def run(ck):
     with ck.driver() as d:
         for name, case in corpus_cases():
             ck.count("corpus")
-            if "X" in case:
+            if "steps" in case:
+                run_history_case(ck, d, {k: v for k, v in case.items() if k != "kind"})
+            elif "X" in case:
                 run_space_case(ck, d, case, "corpus:" + name)
         probe_big_integer_log(ck, d)
         n_space = ck.pick(450, 6000)
@@ -865,6 +1154,8 @@ def run(ck):
             run_space_case(ck, d, case, "space", nontrivial=nontriv)
         for _ in range(ck.pick(250, 3000)):
             run_tpoint_case(ck, d, rng)
+        for _ in range(ck.pick(350, 3000)):
+            run_history_case(ck, d, gen_history_case(rng))
         for _ in range(ck.pick(300, 3000)):
             item = dim_malformed_cases(rng)
             if item is not None:
@@ -875,7 +1166,11 @@ def run(ck):
 
 def replay(ck, case):
     with ck.driver() as d:
-        if "X" in case:
+        if case.get("kind") == "history" or "steps" in case:
+            fs = run_history(ck, d, case)
+            print("replay: history failures on the current tree:", [(f[0], "step %d" % f[1]) for f in fs] or "none")
+            run_history_case(ck, d, {k: v for k, v in case.items() if k != "kind"})
+        elif "X" in case:
             fails = oracle(case)
             print("replay: oracle failures on the current tree:", [(f[0], f[1]) for f in fails] or "none")
             run_space_case(ck, d, case, "replay")
